@@ -2,7 +2,9 @@
 
 proof gate      fam/bld/coq/Properties/C17.v (write_items / split / workspace permutation invariance, nested protobuf
                 messages, inventory of unordered-iteration sites regenerated from the Rust sources)
-                Builder::dedup (harness flag --dedup): a corpus with structurally equal items of one name in 12+ modules and in two files
+                option sweep: every public Builder option is on in at least one corpus (ignore_unused true/false, touch, change_case,
+                keep_unknown_fields, dedup, special_namings, common_crate_name, split, plugin, include_dirs); repeated builds in ONE process
+                (--again) are compared as well as builds in different processes.  Builder::dedup (harness flag --dedup): a corpus with structurally equal items of one name in 12+ modules and in two files
                 sharing one namespace, under thread counts 1, 2, 16 (few workers = many module groups per rayon split)
 search/oracle   the REAL pilota-build (harness binary, path-depends on the repository) in independent child processes
                 (fresh std RandomState / ahash / DashMap seeds per process -- confirmed by the `seeds` probe)
@@ -26,17 +28,31 @@ def corpora(rng, tier):
     out = []
     n_th = 2 if tier == "quick" else 7
     n_pb = 1 if tier == "quick" else 3
+    # every public option of the Builder is switched on in at least one corpus (lib.rs: ignore_unused, touch, change_case,
+    # keep_unknown_fields, dedup, special_namings, common_crate_name, split_generated_files = the split mode, plugin = the dump plugin,
+    # include_dirs = the protobuf corpora)
+    OPTS = [dict(flags=["--no-ignore-unused", "--keep", "--special-namings", "ID,UID,HTTP"]),
+            dict(flags=["--no-change-case", "--common-crate-name", "shared_types"]),          # ignore_unused at its default (true)
+            dict(flags=["--no-ignore-unused", "--no-change-case", "--keep"]),
+            dict(flags=["--special-namings", "Ids,Foo", "--common-crate-name", "base"]),
+            dict(flags=["--no-ignore-unused"])]
     for i in range(n_th):
         doc = bldgen.c17_thrift_corpus(random.Random(rng.randrange(1 << 30)), n_files=rng.choice([6, 8, 10]), items=rng.choice([6, 8]))
-        out.append(dict(name="thrift%d" % i, kind="thrift", files=doc.texts(), entries=["main.thrift", "f1.thrift"]))
+        out.append(dict(name="thrift%d" % i, kind="thrift", files=doc.texts(), entries=["main.thrift", "f1.thrift"], **OPTS[i % len(OPTS)]))
+    # ignore_unused (default) + Builder::touch: several files of ~100 items, 40% touched, the rest unused
+    for i in range(1 if tier == "quick" else 3):
+        files, entries, touches = bldgen.c17_touch_corpus(random.Random(rng.randrange(1 << 30)), n_files=rng.choice([4, 5, 6]), items=rng.choice([90, 100, 120]))
+        out.append(dict(name="touch%d" % i, kind="thrift", files=files, entries=entries, touch=touches, flags=[], again=True,
+                        threads=[1, 2, 16, 3, 1, 8, 2, 5], split_procs=3 if tier == "quick" else 12))
     # Builder::dedup: the scratch map of Codegen::duplicate is keyed by the bare item name and valid per module only
     for i in range(1 if tier == "quick" else 3):
         files, entries, names = bldgen.c17_dedup_corpus(random.Random(rng.randrange(1 << 30)), n_modules=rng.choice([8, 10, 12]))
         out.append(dict(name="dedup%d" % i, kind="thrift", files=files, entries=entries, dedup=names, threads=[1, 2, 16, 1, 2, 2, 1, 16],
-                        layout=False))
+                        layout=False, flags=["--no-ignore-unused"]))
     for i in range(n_pb):
         files = bldgen.c17_proto_corpus(random.Random(rng.randrange(1 << 30)), n_top=rng.choice([4, 6]), n_nested=rng.choice([4, 6]))
-        out.append(dict(name="proto%d" % i, kind="pb", files=files, entries=["p0.proto", "p1.proto"]))
+        out.append(dict(name="proto%d" % i, kind="pb", files=files, entries=["p0.proto", "p1.proto"],
+                        flags=[["--no-ignore-unused"], [], ["--no-ignore-unused", "--no-change-case"]][i % 3]))
     return out
 
 
@@ -63,9 +79,22 @@ def run_builder(hb, c, idl_dir, mode, threads, tag, timeout=120):
     else:
         target = os.path.join(out, "gen.rs")
         entries = c["entries"][:1]
-    cmd = [hb, "gen", c["kind"], mode, target, "--no-ignore-unused", "--dump", dump]
+    cmd = [hb, "gen", c["kind"], mode, target, "--dump", dump] + list(c.get("flags", ["--no-ignore-unused"]))
     if c.get("dedup"):
         cmd += ["--dedup", ",".join(c["dedup"])]
+    for fn, names_ in c.get("touch") or []:
+        cmd += ["--touch", "%s:%s" % (os.path.join(idl_dir, fn), ",".join(names_))]
+    # a second build in the same process (fresh Builder, same options): the first process of every group, the first three for corpora marked `again`
+    second = None
+    if (c.get("again") and tag in ("p0", "p1", "p2")) or tag == "p0":
+        second = os.path.join(out, "again")
+        os.makedirs(second)
+        if mode == "workspace":
+            os.makedirs(os.path.join(second, "ws"))
+            open(os.path.join(second, "ws", "Cargo.toml"), "w").close()
+            cmd += ["--again", os.path.join(second, "ws")]
+        else:
+            cmd += ["--again", os.path.join(second, "gen.rs")]
     if c["kind"] == "pb":
         cmd += ["--include", idl_dir]
     cmd += ["--"] + [os.path.join(idl_dir, e) for e in entries]
@@ -79,15 +108,19 @@ def run_builder(hb, c, idl_dir, mode, threads, tag, timeout=120):
         err = p.stderr[-1500:]
     except subprocess.TimeoutExpired:
         status, rc, err = "TIMEOUT", -1, ""
-    hashes = {}
+    hashes, hashes2 = {}, {}
     for d, _, fs in os.walk(out):
         for f in fs:
             q = os.path.join(d, f)
             rel = os.path.relpath(q, out)
             if rel.endswith("Cargo.lock") or "/target/" in rel:
                 continue
-            hashes[rel] = hashlib.sha256(open(q, "rb").read()).hexdigest()
-    return dict(out=out, status=status, rc=rc, stderr=err, hashes=hashes, env=dict(RAYON_NUM_THREADS=threads, pid_tag=tag),
+            h = hashlib.sha256(open(q, "rb").read()).hexdigest()
+            if rel.startswith("again" + os.sep):
+                hashes2[os.path.relpath(q, second)] = h
+            else:
+                hashes[rel] = h
+    return dict(out=out, status=status, rc=rc, stderr=err, hashes=hashes, hashes_again=hashes2 if second else None, second=second, env=dict(RAYON_NUM_THREADS=threads, pid_tag=tag),
                 wall=round(time.time() - t0, 2), cmd=cmd)
 
 
@@ -248,7 +281,9 @@ def run(chk, replay=None):
         "modelled, not verified: rayon (each for_each body runs exactly once), itertools into_group_map_by, DashMap entry semantics, rustfmt (a function of its input file)",
         "item rendering is abstract (Section variable render): its determinism is only observed through the file hashes"]
     chk.cov["rule"] = ("runs: corpus x mode {single, split, workspace} x independent builder processes with RAYON_NUM_THREADS "
-                       "cycling through 1,2,3,5,8,16 (dedup corpora: Builder::dedup on, threads 1,2,16); a case = one (corpus, mode, process); non-trivial = the run emitted "
+                       "cycling through 1,2,3,5,8,16 (dedup corpora: Builder::dedup on, threads 1,2,16; touch corpora: ignore_unused + "
+                       "Builder::touch on ~40% of several hundred items; the other option settings rotate over the corpora; the first process of "
+                       "every group and the first three of a touch corpus build twice and the two outputs are compared); a case = one (corpus, mode, process); non-trivial = the run emitted "
                        ">= 2 modules; layout cases = one per emitted gen.rs (model prediction vs scrape)")
     rng = random.Random(chk.seed)
     os.makedirs(WORK, exist_ok=True)
@@ -271,7 +306,8 @@ def run(chk, replay=None):
     for c in cs:
         idl = write_corpus(c)
         for mode in modes:
-            for k in range(procs):
+            # a corpus that emits several hundred files in split mode (each one through rustfmt) gets fewer split-mode processes
+            for k in range(min(procs, c.get("split_procs", procs)) if mode == "split" else procs):
                 th = c.get("threads") or THREADS
                 jobs.append((c, idl, mode, th[k % len(th)], "p%d" % k))
     with ThreadPoolExecutor(max_workers=min(8, core.NPROC)) as ex:
@@ -301,6 +337,18 @@ def run(chk, replay=None):
                 failing.append(("builder run failed (%s, exit %s) on a determinism corpus" % (r["status"][:200], r["rc"]),
                                 dict(kind="builder-failure", corpus=j[0], mode=mode, env=r["env"], stderr=r["stderr"], cmd=r["cmd"])))
                 continue
+            if r.get("hashes_again") is not None:
+                a1 = {k: v for k, v in r["hashes"].items() if k != "_dump.txt"}
+                if r["hashes_again"] != a1:
+                    diff = sorted(k for k in set(a1) | set(r["hashes_again"]) if a1.get(k) != r["hashes_again"].get(k))
+                    f0 = diff[0]
+                    def text2(base):
+                        q = os.path.join(base, f0)
+                        return open(q, encoding="utf-8", errors="replace").read()[:20000] if os.path.exists(q) else None
+                    failing.append(("two builds IN ONE PROCESS emitted different output for the same input and options (%s mode, %d differing files, first: %s)"
+                                    % (mode, len(diff), f0),
+                                    dict(kind="nondeterminism", corpus=j[0], mode=mode, env_a=r["env"], env_b=dict(r["env"], build="second build of the same process"),
+                                         differing_files=diff[:20], file=f0, content_a=text2(r["out"]), content_b=text2(r["second"]))))
             if r["hashes"] != ref["hashes"]:
                 diff = sorted((k for k in set(r["hashes"]) | set(ref["hashes"]) if r["hashes"].get(k) != ref["hashes"].get(k)),
                               key=lambda k: (k == "_dump.txt", k))   # emitted files first, the item dump of the harness last
